@@ -1,4 +1,4 @@
 SPECIFICATION Spec
-CONSTANTS Ns = {4, 32} Rs = {1, 2} MaxT = 3 Nppr = {2}
+CONSTANTS Ns = {16} Rs = {4} MaxT = 2 Nppr = {2, 4}
 INVARIANTS Inv1 Inv2 Inv3 Inv4 Inv5
 CHECK_DEADLOCK FALSE
